@@ -9,6 +9,19 @@ def main(argv):
     if not argv:
         print("usage: check <ID> [--tier quick|thorough] [--repo DIR] [--replay FILE]")
         return 2
+    if argv[0] == "--warm":
+        # setup: pre-build the digest-keyed clang AST cache (pure optimisation; every
+        # check rebuilds missing entries itself from /repo's current sources)
+        import os
+        from . import cfront
+        repo = os.environ.get("VERIF_REPO", "/repo")
+        try:
+            cfront.load_c(repo)
+            print("warm: C front-end cache ready")
+            return 0
+        except Exception as e:
+            print("warm: failed (%s); checks will build the cache on demand" % e)
+            return 0
     pid = argv[0]
     try:
         mod = importlib.import_module("sa.props." + pid)
